@@ -343,6 +343,34 @@ def atom(kind, p):
     return Poly.var(name)
 
 
+def eval_at(p, env, _depth=0):
+    """Exact value (Fraction) of polynomial p at the point `env` (variable name -> Fraction), evaluating sqrt / norm atoms
+    recursively when their argument is a perfect rational square; None when some variable has no value or a root is irrational."""
+    import math
+    if _depth > 12:
+        return None
+    total = Fraction(0)
+    for m, c in p.t.items():
+        term = Fraction(c)
+        for vi, e in m:
+            name = R.vars[vi]
+            val = env.get(name)
+            if val is None and vi in R.atom_arg:
+                arg = eval_at(R.atom_arg[vi][1], env, _depth + 1)
+                if arg is None or arg < 0:
+                    return None
+                a, b = math.isqrt(arg.numerator), math.isqrt(arg.denominator)
+                if a * a != arg.numerator or b * b != arg.denominator:
+                    return None
+                val = Fraction(a, b)
+                env[name] = val
+            if val is None:
+                return None
+            term *= Fraction(val) ** e
+        total += term
+    return total
+
+
 def opaque(name):
     """A fresh transcendental / uninterpreted scalar (np.pi, eps, ...)."""
     return Poly.var(name)
